@@ -38,6 +38,7 @@ def apply_relative(b: int, last: int, steps: int, oi: int, si: int, viastr: bool
     post: _
     """
     lastv = pick(LASTS, last)
+    steps = pick([0, 1, 2, 3, 4, 5, 6], steps)  # rendered into text: concretise first (a symbolic digit string is costly and realised anyway)
     base_tokens = [str(lastv) if t == "$" else t for t in pick(BASES, b)]
     off = pick(OFFSETS, oi)
     suffix = pick(SUFFIXES, si)
